@@ -549,7 +549,7 @@ func c06Grow(c *Ctx, r *bufRoles) {
 		call := in.(*ssa.Call)
 		copies = append(copies, call)
 		o.Site(in.Pos(), "%s", in.String())
-		if !derivesFrom(call.Call.Args[0], func(v ssa.Value) bool { return v == ssa.Value(mk) }, false) {
+		if !derivesFrom(call.Call.Args[0], func(v ssa.Value) bool { return sameOrigin(v, ssa.Value(mk)) }, false) {
 			o.Fail(in.Pos(), "growth copies into something that is not the new array")
 		}
 		if !derivesFrom(call.Call.Args[1], func(v ssa.Value) bool { return r.isLoad(v, r.data) }, false) {
@@ -616,7 +616,7 @@ func c06Grow(c *Ctx, r *bufRoles) {
 		if !linOfP(tailV, sym, pr).eq(nCopies) {
 			o.Fail(ret.Pos(), "after growth tail (%s) is not the number of bytes copied (%s)", linOfP(tailV, sym, pr), nCopies)
 		}
-		if dataV != ssa.Value(mk) {
+		if !sameOrigin(dataV, ssa.Value(mk)) {
 			o.Fail(ret.Pos(), "after growth data is not the new array")
 		}
 		// strictly larger: the path must carry the literal newSize > len(data)
@@ -881,7 +881,7 @@ func runC07(c *Ctx) {
 			n++
 			st := in.(*ssa.Store)
 			o.Site(in.Pos(), "%s stores %s", fname(fs.f), st.Val.Name())
-			if st.Val != ssa.Value(fs.f.Params[1]) {
+			if !sameOrigin(st.Val, ssa.Value(fs.f.Params[1])) {
 				o.Fail(in.Pos(), "%s does not store its argument", fname(fs.f))
 			}
 			if !la.holdsOwner(in, r.T, true) {
@@ -1032,7 +1032,7 @@ func (r *bufRoles) isWrapAdvance(v ssa.Value, field string) bool {
 			return false
 		}
 		k, isC := constInt(b.Y)
-		return isC && k == 1 && b.X == ssa.Value(prm)
+		return isC && k == 1 && sameOrigin(b.X, ssa.Value(prm))
 	}
 	// limitFact: the edge establishes next >= len(data) (want=true) or next < len(data) (want=false)
 	limitFact := func(ft fact, want bool) bool {
